@@ -1,4 +1,4 @@
-import PewProofs.ThermoText
+import PewProofs.ThermoDecode
 
 /-! # C03 — property theorems (statements only depend on `PewModel.Thermo` and the hypothesis
 structures `RowsOK` / `ColsOK` of `PewProofs`) -/
@@ -519,6 +519,476 @@ theorem load_text_cols (x : Ext V) (sh : Nat → String) (delim : Char) (a : Acq
   rw [loadText_renderText x delim g r rest ua hne hfree, ← hf]
   exact load_renderCols x sh delim a ci ct ua dec hchan htime hc hct hs hdec hnodec
 
+
+/-! ## the explicit readers on the text of the file -/
+
+theorem tableOf_rows_text (sh : Nat → String) (d : Char) (explicit : Option Char) (a : Acq)
+    (hexp : explicit = none ∨ explicit = some d)
+    (hfree : ∀ r ∈ renderRows sh a, ∀ f ∈ r, d ∉ f.toList) :
+    tableOf explicit (renderText d (renderRows sh a)) = some (renderRows sh a) := by
+  have hform : ∃ g r rest, renderRows sh a = ("" :: g :: r) :: rest := ⟨_, _, _, rfl⟩
+  obtain ⟨g, r, rest, hf⟩ := hform
+  have hne := renderRows_rows_ne sh a
+  rw [hf] at hne hfree ⊢
+  rcases hexp with h | h <;> rw [h]
+  · exact (tableOf_renderText d g r rest hne hfree).2
+  · exact (tableOf_renderText d g r rest hne hfree).1
+
+theorem tableOf_cols_text (sh : Nat → String) (d : Char) (explicit : Option Char) (a : Acq)
+    (hexp : explicit = none ∨ explicit = some d)
+    (hfree : ∀ r ∈ renderCols sh a, ∀ f ∈ r, d ∉ f.toList) :
+    tableOf explicit (renderText d (renderCols sh a)) = some (renderCols sh a) := by
+  have hform : ∃ g r rest, renderCols sh a = ("" :: g :: r) :: rest := ⟨_, _, _, rfl⟩
+  obtain ⟨g, r, rest, hf⟩ := hform
+  have hne := renderCols_rows_ne sh a
+  rw [hf] at hne hfree ⊢
+  rcases hexp with h | h <;> rw [h]
+  · exact (tableOf_renderText d g r rest hne hfree).2
+  · exact (tableOf_renderText d g r rest hne hfree).1
+
+/-- **`icap_csv_rows_read_data(path, delimiter, comma_decimal, use_analog)` on the text of a samples-in-rows
+export**, with the delimiter passed or left to be taken from the first character of the file: the image of
+the requested channel (Counter, or Analog when asked), pixel by pixel the exported value. -/
+theorem readData_text_rows (x : Ext α) (sh : Nat → String) (d : Char) (explicit : Option Char) (comma ua : Bool) (a : Acq) (ci : Nat)
+    (hexp : explicit = none ∨ explicit = some d)
+    (hchan : a.chan ci = chanOf ua) (hr : RowsOK x sh a ci)
+    (hfree : ∀ r ∈ renderRows sh a, ∀ f ∈ r, d ∉ f.toList) :
+    readDataText x true explicit comma ua (renderText d (renderRows sh a)) = some (specImg x comma a ci) := by
+  unfold readDataText
+  rw [tableOf_rows_text sh d explicit a hexp hfree]
+  simp only [Option.bind_some, if_true]
+  rw [← hchan]
+  exact readRows_render_aux x sh comma a ci hr
+
+/-- **`icap_csv_columns_read_data` on the text of a samples-in-columns export**, likewise. -/
+theorem readData_text_cols (x : Ext α) (sh : Nat → String) (d : Char) (explicit : Option Char) (comma ua : Bool) (a : Acq) (ci : Nat)
+    (hexp : explicit = none ∨ explicit = some d)
+    (hchan : a.chan ci = chanOf ua) (hc : ColsOK x sh comma a ci)
+    (hfree : ∀ r ∈ renderCols sh a, ∀ f ∈ r, d ∉ f.toList) :
+    readDataText x false explicit comma ua (renderText d (renderCols sh a)) = some (specImg x comma a ci) := by
+  unfold readDataText
+  rw [tableOf_cols_text sh d explicit a hexp hfree]
+  simp only [Option.bind_some, Bool.false_eq_true, if_false]
+  rw [← hchan]
+  exact readCols_render_aux x sh comma a ci hc
+
+/-- **Both `*_read_params` on the text of the file**: the times of the first element and the rounded mean
+interval of the exported Time channel. -/
+theorem readParams_text (x : Ext V) (sh : Nat → String) (d : Char) (explicit : Option Char) (comma : Bool) (a : Acq) (ct : Nat)
+    (hexp : explicit = none ∨ explicit = some d) (htime : a.chan ct = "Time")
+    (hr : RowsOK x sh a ct) (hc : ColsOK x sh comma a ct)
+    (hfreeR : ∀ r ∈ renderRows sh a, ∀ f ∈ r, d ∉ f.toList) (hfreeC : ∀ r ∈ renderCols sh a, ∀ f ∈ r, d ∉ f.toList) :
+    readParamsText x true explicit comma (renderText d (renderRows sh a)) = some (specParams x comma a ct) ∧
+    readParamsText x false explicit comma (renderText d (renderCols sh a)) = some (specParams x comma a ct) := by
+  unfold readParamsText
+  rw [tableOf_rows_text sh d explicit a hexp hfreeR, tableOf_cols_text sh d explicit a hexp hfreeC]
+  exact ⟨params_renderRows_aux x sh comma a ct htime hr, params_renderCols_aux x sh comma a ct htime hc⟩
+
+/-! ## `load` without a Time channel, `load(full=False)` -/
+
+/-- **`load` on a samples-in-rows export without a Time channel**: the requested channel exactly as
+exported and no parameters (`{}`). -/
+theorem load_text_rows_noTime (x : Ext V) (sh : Nat → String) (delim : Char) (a : Acq) (ci : Nat) (ua dec : Bool)
+    (hchan : a.chan ci = chanOf ua) (hnt : a.chanIdx "Time" = none)
+    (hr : RowsOK x sh a ci)
+    (hdec : dec = true → delim = ';')
+    (hnodec : dec = false → ∀ r ∈ renderRows sh a, ∀ f ∈ r, hasSub "," f = false)
+    (hfree : ∀ r ∈ renderRows sh a, ∀ f ∈ r, delim ∉ f.toList) :
+    loadText x (renderText delim (renderRows sh a)) ua = .ok (specImg x dec a ci) none := by
+  have hform : ∃ g r rest, renderRows sh a = ("" :: g :: r) :: rest := ⟨_, _, _, rfl⟩
+  obtain ⟨g, r, rest, hf⟩ := hform
+  have hne := renderRows_rows_ne sh a
+  have hfree' := hfree
+  rw [hf] at hne hfree' ⊢
+  rw [loadText_renderText x delim g r rest ua hne hfree', ← hf]
+  have hsniff := sniff_renderRows sh a hr.nscans hr.nelements (Nat.lt_of_le_of_lt (Nat.zero_le _) hr.chanIdx)
+  have hrd := readRows_render_aux x sh (detectComma delim (renderRows sh a)) a ci hr
+  unfold load
+  simp only [hsniff]
+  rw [show (if ua = true then "Analog" else "Counter") = a.chan ci from hchan.symm, hrd,
+    readParams_rows_noTime x sh _ a hnt, specImg_detect_rows x sh delim a ci dec hr.chanIdx hdec hnodec]
+
+/-- **`load` on a samples-in-columns export without a Time channel**, likewise. -/
+theorem load_text_cols_noTime (x : Ext V) (sh : Nat → String) (delim : Char) (a : Acq) (ci : Nat) (ua dec : Bool)
+    (hchan : a.chan ci = chanOf ua) (hnt : ColsAbsent sh a "Time")
+    (hc : ∀ b, ColsOK x sh b a ci)
+    (hs : ∀ s ∈ a.samples, hasSub "MainRuns" s = false)
+    (hdec : dec = true → delim = ';')
+    (hnodec : dec = false → ∀ r ∈ renderCols sh a, ∀ f ∈ r, hasSub "," f = false)
+    (hfree : ∀ r ∈ renderCols sh a, ∀ f ∈ r, delim ∉ f.toList) :
+    loadText x (renderText delim (renderCols sh a)) ua = .ok (specImg x dec a ci) none := by
+  have hform : ∃ g r rest, renderCols sh a = ("" :: g :: r) :: rest := ⟨_, _, _, rfl⟩
+  obtain ⟨g, r, rest, hf⟩ := hform
+  have hne := renderCols_rows_ne sh a
+  have hfree' := hfree
+  rw [hf] at hne hfree' ⊢
+  rw [loadText_renderText x delim g r rest ua hne hfree', ← hf]
+  have h0 := hc false
+  have hsniff := sniff_renderCols sh a h0.nscans h0.nelements (Nat.lt_of_le_of_lt (Nat.zero_le _) h0.chanIdx) hs
+  have hrd := readCols_render_aux x sh (detectComma delim (renderCols sh a)) a ci (hc _)
+  unfold load
+  simp only [hsniff]
+  rw [show (if ua = true then "Analog" else "Counter") = a.chan ci from hchan.symm, hrd,
+    readParams_cols_noTime x sh _ a hnt, specImg_detect_cols x sh delim a ci dec h0.chanIdx hdec hnodec]
+
+/-- **`load(full=False)` hands back the array of `load(full=True)`**, for every text (export or not):
+the same image, or both raise. -/
+theorem load_full_false (x : Ext V) (lines : List String) (ua : Bool) :
+    loadCall x lines ua false = (match loadCall x lines ua true with
+      | .full img _ => .data img
+      | r => r) := by
+  unfold loadCall
+  simp only [Bool.false_eq_true, if_false, if_true, loadDataText_eq]
+  cases loadText x lines ua <;> rfl
+
+/-- **The two layouts of one acquisition import to identical arrays through `load`** — sniffing, the
+detection of the decimal mark and the dispatch included — whatever delimiter each file uses. -/
+theorem load_layouts_agree (x : Ext V) (sh : Nat → String) (dr dc : Char) (a : Acq) (ci ct : Nat) (ua dec : Bool)
+    (hchan : a.chan ci = (if ua then "Analog" else "Counter")) (htime : a.chan ct = "Time")
+    (hr : RowsOK x sh a ci) (hrt : RowsOK x sh a ct)
+    (hc : ∀ b, ColsOK x sh b a ci) (hct : ∀ b, ColsOK x sh b a ct)
+    (hs : ∀ s ∈ a.samples, hasSub "MainRuns" s = false)
+    (hdecR : dec = true → dr = ';') (hdecC : dec = true → dc = ';')
+    (hnodecR : dec = false → ∀ r ∈ renderRows sh a, ∀ f ∈ r, hasSub "," f = false)
+    (hnodecC : dec = false → ∀ r ∈ renderCols sh a, ∀ f ∈ r, hasSub "," f = false)
+    (hfreeR : ∀ r ∈ renderRows sh a, ∀ f ∈ r, dr ∉ f.toList)
+    (hfreeC : ∀ r ∈ renderCols sh a, ∀ f ∈ r, dc ∉ f.toList) :
+    loadText x (renderText dr (renderRows sh a)) ua = loadText x (renderText dc (renderCols sh a)) ua := by
+  rw [load_text_rows x sh dr a ci ct ua dec hchan htime hr hrt hdecR hnodecR hfreeR,
+    load_text_cols x sh dc a ci ct ua dec hchan htime hc hct hs hdecC hnodecC hfreeC]
+
+
+
+/-- **Sniffing the text of the file names each layout correctly**: the substring test of
+`icap_csv_sample_format` on the whole first and third line answers `rows` for every samples-in-rows
+export and `columns` for every samples-in-columns export, for every delimiter that is not a letter of
+`MainRuns`. -/
+theorem sniff_text (sh : Nat → String) (d : Char) (a : Acq) (hd : d ∉ "MainRuns".toList)
+    (hm : 0 < a.nscans) (hk : 0 < a.elements.length) (hc : 0 < a.channels.length)
+    (hs : ∀ s ∈ a.samples, hasSub "MainRuns" s = false) :
+    sniffText (renderText d (renderRows sh a)) = .rows ∧ sniffText (renderText d (renderCols sh a)) = .columns := by
+  rw [sniffText_renderText d hd, sniffText_renderText d hd]
+  exact ⟨sniff_renderRows sh a hm hk hc, sniff_renderCols sh a hm hk hc hs⟩
+
+/-! ## histories: every call is judged by what the path holds when it is made -/
+
+/-- one call on the text of a samples-in-rows export returns what the specification names -/
+theorem call_spec_rows (x : Ext V) (sh : Nat → String) (d : Char) (dec : Bool) (a : Acq) (c : Call)
+    (h : RowsFileOK x sh d dec a) :
+    Judged (specCall x (.rows d dec a) c) (callText x (renderText d (renderRows sh a)) c) := by
+  cases c with
+  | sniff =>
+    show Out.fmt (sniffText _) = Out.fmt Fmt.rows
+    rw [sniffText_renderText d h.delimMain, sniff_renderRows sh a h.nscans h.nelements h.nchannels]
+  | load ua full =>
+    show Judged ((specData x dec a ua).map fun img => Out.load (if full then .full img (specPar x dec a) else .data img)) _
+    unfold specData
+    cases hci : a.chanIdx (chanOf ua) with
+    | none => trivial
+    | some ci =>
+      obtain ⟨hlt, hch⟩ := chanIdx_some a _ ci hci
+      have hr := h.chans ci hlt (hch ▸ asked_chanOf ua)
+      have hfull : loadText x (renderText d (renderRows sh a)) ua = .ok (specImg x dec a ci) (specPar x dec a) := by
+        unfold specPar
+        cases hct : a.chanIdx "Time" with
+        | none => exact load_text_rows_noTime x sh d a ci ua dec hch hct hr h.decDelim h.noComma h.free
+        | some ct =>
+          obtain ⟨hlt', hch'⟩ := chanIdx_some a _ ct hct
+          exact load_text_rows x sh d a ci ct ua dec hch hch' hr
+            (h.chans ct hlt' (hch' ▸ Or.inr (Or.inr rfl))) h.decDelim h.noComma h.free
+      show Out.load (loadCall x _ ua full) = _
+      unfold loadCall
+      cases full with
+      | true => simp only [if_true, hfull]
+      | false => simp only [Bool.false_eq_true, if_false, loadDataText_eq, hfull, LoadResult.toData]
+  | data rows explicit comma ua =>
+    cases rows with
+    | false => trivial
+    | true =>
+      show Judged (if (comma == dec && (explicit.isNone || explicit == some d)) = true
+        then (specData x dec a ua).map fun img => Out.img (some img) else none) _
+      split
+      · rename_i hcond
+        simp only [Bool.and_eq_true, beq_iff_eq, Bool.or_eq_true, Option.isNone_iff_eq_none] at hcond
+        obtain ⟨hcm, hexp⟩ := hcond
+        unfold specData
+        cases hci : a.chanIdx (chanOf ua) with
+        | none => trivial
+        | some ci =>
+          obtain ⟨hlt, hch⟩ := chanIdx_some a _ ci hci
+          have hr := h.chans ci hlt (hch ▸ asked_chanOf ua)
+          show Out.img (readDataText x true explicit comma ua _) = Out.img (some (specImg x dec a ci))
+          rw [readData_text_rows x sh d explicit comma ua a ci hexp hch hr h.free, hcm]
+      · trivial
+  | params rows explicit comma =>
+    cases rows with
+    | false => trivial
+    | true =>
+      show Judged (if (comma == dec && (explicit.isNone || explicit == some d)) = true
+        then (specPar x dec a).map fun p => Out.params (some p) else none) _
+      split
+      · rename_i hcond
+        simp only [Bool.and_eq_true, beq_iff_eq, Bool.or_eq_true, Option.isNone_iff_eq_none] at hcond
+        obtain ⟨hcm, hexp⟩ := hcond
+        unfold specPar
+        cases hct : a.chanIdx "Time" with
+        | none => trivial
+        | some ct =>
+          obtain ⟨hlt, hch⟩ := chanIdx_some a _ ct hct
+          have hr := h.chans ct hlt (hch ▸ Or.inr (Or.inr rfl))
+          show Out.params (readParamsText x true explicit comma _) = Out.params (some (specParams x dec a ct))
+          unfold readParamsText
+          rw [tableOf_rows_text sh d explicit a hexp h.free, hcm]
+          exact congrArg Out.params (params_renderRows_aux x sh dec a ct hch hr)
+      · trivial
+
+/-- … of a samples-in-columns export -/
+theorem call_spec_cols (x : Ext V) (sh : Nat → String) (d : Char) (dec : Bool) (a : Acq) (c : Call)
+    (h : ColsFileOK x sh d dec a) :
+    Judged (specCall x (.cols d dec a) c) (callText x (renderText d (renderCols sh a)) c) := by
+  cases c with
+  | sniff =>
+    show Out.fmt (sniffText _) = Out.fmt Fmt.columns
+    rw [sniffText_renderText d h.delimMain, sniff_renderCols sh a h.nscans h.nelements h.nchannels h.sampleMain]
+  | load ua full =>
+    show Judged ((specData x dec a ua).map fun img => Out.load (if full then .full img (specPar x dec a) else .data img)) _
+    unfold specData
+    cases hci : a.chanIdx (chanOf ua) with
+    | none => trivial
+    | some ci =>
+      obtain ⟨hlt, hch⟩ := chanIdx_some a _ ci hci
+      have hc := h.chans ci hlt (hch ▸ asked_chanOf ua)
+      have hfull : loadText x (renderText d (renderCols sh a)) ua = .ok (specImg x dec a ci) (specPar x dec a) := by
+        unfold specPar
+        cases hct : a.chanIdx "Time" with
+        | none => exact load_text_cols_noTime x sh d a ci ua dec hch (h.noTime hct) hc h.sampleMain h.decDelim h.noComma h.free
+        | some ct =>
+          obtain ⟨hlt', hch'⟩ := chanIdx_some a _ ct hct
+          exact load_text_cols x sh d a ci ct ua dec hch hch' hc
+            (h.chans ct hlt' (hch' ▸ Or.inr (Or.inr rfl))) h.sampleMain h.decDelim h.noComma h.free
+      show Out.load (loadCall x _ ua full) = _
+      unfold loadCall
+      cases full with
+      | true => simp only [if_true, hfull]
+      | false => simp only [Bool.false_eq_true, if_false, loadDataText_eq, hfull, LoadResult.toData]
+  | data rows explicit comma ua =>
+    cases rows with
+    | true => trivial
+    | false =>
+      show Judged (if (comma == dec && (explicit.isNone || explicit == some d)) = true
+        then (specData x dec a ua).map fun img => Out.img (some img) else none) _
+      split
+      · rename_i hcond
+        simp only [Bool.and_eq_true, beq_iff_eq, Bool.or_eq_true, Option.isNone_iff_eq_none] at hcond
+        obtain ⟨hcm, hexp⟩ := hcond
+        unfold specData
+        cases hci : a.chanIdx (chanOf ua) with
+        | none => trivial
+        | some ci =>
+          obtain ⟨hlt, hch⟩ := chanIdx_some a _ ci hci
+          have hc := h.chans ci hlt (hch ▸ asked_chanOf ua) comma
+          show Out.img (readDataText x false explicit comma ua _) = Out.img (some (specImg x dec a ci))
+          rw [readData_text_cols x sh d explicit comma ua a ci hexp hch hc h.free, hcm]
+      · trivial
+  | params rows explicit comma =>
+    cases rows with
+    | true => trivial
+    | false =>
+      show Judged (if (comma == dec && (explicit.isNone || explicit == some d)) = true
+        then (specPar x dec a).map fun p => Out.params (some p) else none) _
+      split
+      · rename_i hcond
+        simp only [Bool.and_eq_true, beq_iff_eq, Bool.or_eq_true, Option.isNone_iff_eq_none] at hcond
+        obtain ⟨hcm, hexp⟩ := hcond
+        unfold specPar
+        cases hct : a.chanIdx "Time" with
+        | none => trivial
+        | some ct =>
+          obtain ⟨hlt, hch⟩ := chanIdx_some a _ ct hct
+          have hc := h.chans ct hlt (hch ▸ Or.inr (Or.inr rfl)) dec
+          show Out.params (readParamsText x false explicit comma _) = Out.params (some (specParams x dec a ct))
+          unfold readParamsText
+          rw [tableOf_cols_text sh d explicit a hexp h.free, hcm]
+          exact congrArg Out.params (params_renderCols_aux x sh dec a ct hch hc)
+      · trivial
+
+/-- **One call, judged by the file alone**: on the text of any export a history may write (either layout,
+any of the three delimiter / decimal-mark pairs) and on any text that is no export, every public function
+returns what the specification names from what was exported — layout name, image of the requested
+channel, times and scan time — wherever the specification speaks. -/
+theorem call_spec (x : Ext V) (sh : Nat → String) (k : Content) (c : Call) (h : ContentOK x sh k) :
+    Judged (specCall x k c) (callText x (k.text sh) c) := by
+  cases k with
+  | rows d dec a => exact call_spec_rows x sh d dec a c h
+  | cols d dec a => exact call_spec_cols x sh d dec a c h
+  | other ls =>
+    cases c with
+    | sniff =>
+      show Out.fmt (sniffText ls) = Out.fmt specSniffOther
+      exact congrArg Out.fmt (sniff_other _ h)
+    | load ua full => trivial
+    | data rows explicit comma ua => trivial
+    | params rows explicit comma => trivial
+
+/-- **Histories.** For every sequence of exports written to any paths (with any modification times: kept,
+moved on, or the same as before) and of calls of the public functions in between — the same path
+rewritten with the other layout, another delimiter or decimal mark, a text that is no export; the same
+file imported twice; several files in turn; sniffing, then `load`, then the readers — every call returns
+what the specification names for the file **its path holds at the time of the call**, whatever the path
+held before and however often it was read. (`fs` / `cs`: the files and the exports they came from when
+the history starts.) -/
+theorem history_spec (x : Ext V) (sh : Nat → String) : ∀ (evs : List SEvent) (fs : FS) (cs : Nat → Option Content),
+    (∀ p mt c, SEvent.write p mt c ∈ evs → ContentOK x sh c) →
+    (∀ p, (fs p).map (·.lines) = (cs p).map (Content.text sh)) →
+    (∀ p c, cs p = some c → ContentOK x sh c) →
+    JudgedAll (specHistory x cs evs) (runHistory x fs (evs.map (SEvent.event sh)))
+  | [], _, _, _, _, _ => trivial
+  | .write p mt c :: rest, fs, cs, hok, hfs, hcs => by
+    simp only [specHistory, List.map_cons, SEvent.event, runHistory]
+    apply history_spec x sh rest
+    · intro p' mt' c' hm
+      exact hok p' mt' c' (List.mem_cons_of_mem _ hm)
+    · intro q
+      unfold FS.write
+      by_cases hq : q = p
+      · simp [hq]
+      · simp [hq, hfs q]
+    · intro q c' hq
+      by_cases hqp : q = p
+      · simp only [hqp, if_true, Option.some.injEq] at hq
+        rw [← hq]
+        exact hok p mt c List.mem_cons_self
+      · simp only [hqp, if_false] at hq
+        exact hcs q c' hq
+  | .call p c :: rest, fs, cs, hok, hfs, hcs => by
+    simp only [specHistory, List.map_cons, SEvent.event, runHistory]
+    refine ⟨?_, history_spec x sh rest fs cs
+      (fun p' mt' c' hm => hok p' mt' c' (List.mem_cons_of_mem _ hm)) hfs hcs⟩
+    cases hk : cs p with
+    | none => trivial
+    | some k =>
+      have := hfs p
+      rw [hk] at this
+      cases hf : fs p with
+      | none => rw [hf] at this; cases this
+      | some f =>
+        rw [hf] at this
+        simp only [Option.map_some, Option.some.injEq] at this
+        simp only [Option.bind_some, this]
+        exact call_spec x sh k c (hcs p k hk)
+
+/-- … in particular from a process that has not touched any file yet -/
+theorem history_spec_fresh (x : Ext V) (sh : Nat → String) (evs : List SEvent)
+    (hok : ∀ p mt c, SEvent.write p mt c ∈ evs → ContentOK x sh c) :
+    JudgedAll (specHistory x (fun _ => none) evs) (runHistory x (fun _ => none) (evs.map (SEvent.event sh))) :=
+  history_spec x sh evs _ _ hok (fun _ => rfl) (fun _ _ h => by cases h)
+
+/-- **The modification time plays no part**: two histories that differ only in the modification times of
+the files they write give the same results, call by call (for every text written, export or not). -/
+theorem history_mtime_irrelevant (x : Ext V) (f : Nat → Nat) : ∀ (evs : List Event) (fs fs' : FS),
+    (∀ p, (fs p).map (·.lines) = (fs' p).map (·.lines)) →
+    runHistory x fs (evs.map fun e => match e with | .write p mt ls => .write p (f mt) ls | e => e) = runHistory x fs' evs
+  | [], _, _, _ => rfl
+  | .write p mt ls :: rest, fs, fs', h => by
+    simp only [List.map_cons, runHistory]
+    apply history_mtime_irrelevant x f rest
+    intro q
+    unfold FS.write
+    by_cases hq : q = p
+    · simp [hq]
+    · simp [hq, h q]
+  | .call p c :: rest, fs, fs', h => by
+    simp only [List.map_cons, runHistory]
+    rw [history_mtime_irrelevant x f rest fs fs' h]
+    congr 1
+    have := h p
+    cases hf : fs p with
+    | none =>
+      rw [hf] at this
+      cases hf' : fs' p with
+      | none => rfl
+      | some g => rw [hf'] at this; cases this
+    | some g =>
+      rw [hf] at this
+      cases hf' : fs' p with
+      | none => rw [hf'] at this; cases this
+      | some g' =>
+        rw [hf'] at this
+        simp only [Option.map_some, Option.some.injEq] at this
+        simp only [this]
+
+
+/-! ## from the characters of the file to its lines (byte order mark, `\r\n` / `\n`) -/
+
+/-- **The text layer gives the lines back.** For every list of lines (each some characters that are no
+line end, then `\n`), written with `\n` or `\r\n` at the end of each line, with or without a UTF-8 byte
+order mark in front: dropping the byte order mark, translating the line ends and cutting after every `\n`
+returns exactly those lines. (Without a byte order mark the text itself must not begin with U+FEFF.) -/
+theorem decodeLines_rawText (bom : Bool) (eol : List Char) (heol : eol = ['\n'] ∨ eol = ['\r', '\n']) (lines : List String)
+    (h : ∀ l ∈ lines, IsLine l)
+    (hfirst : bom = false → ∀ l ∈ lines.head?, l.toList.head? ≠ some bomChar) :
+    decodeLines (rawText bom eol lines) = lines := by
+  have hstrip : stripBom (rawText bom eol lines) = lines.flatMap (rawLine eol) := by
+    unfold rawText
+    cases bom with
+    | true => simp [stripBom]
+    | false =>
+      simp only [Bool.false_eq_true, if_false, List.nil_append]
+      cases lines with
+      | nil => rfl
+      | cons l tl =>
+        rw [List.flatMap_cons]
+        exact head_rawLine_ne_bom eol heol l (h l List.mem_cons_self) (hfirst rfl l (by simp)) _
+  unfold decodeLines
+  rw [hstrip, univNl_lines eol heol lines h, splitKeep_lines lines h, List.map_map]
+  conv => rhs; rw [← List.map_id lines]
+  apply List.map_congr_left
+  intro l _
+  simp [String.ofList_toList]
+
+/-- **… for the text of a table**: every line ends with the field `"\n"`, no other field holds a line
+end, the first line starts with an empty field (both layouts do), and the delimiter is neither a line end
+nor U+FEFF. With this the theorems about the text of an export (`load_text_rows`, `readData_text_cols`,
+`sniff_text`, `history_spec`, …) are theorems about the characters of the file. -/
+theorem decode_table (bom : Bool) (eol : List Char) (heol : eol = ['\n'] ∨ eol = ['\r', '\n']) (d : Char) (t : Table)
+    (hdn : d ≠ '\n') (hdr : d ≠ '\r') (hdb : d ≠ bomChar)
+    (hend : ∀ r ∈ t, r.getLast? = some "\n")
+    (hclean : ∀ r ∈ t, ∀ f ∈ r.dropLast, NoEol f)
+    (hfirst : ∀ r ∈ t.head?, ∃ g fs, r = "" :: g :: fs) :
+    decodeLines (rawText bom eol (renderText d t)) = renderText d t := by
+  apply decodeLines_rawText bom eol heol
+  · intro l hl
+    unfold renderText at hl
+    obtain ⟨r, hr, rfl⟩ := List.mem_map.mp hl
+    rw [row_split r (hend r hr)]
+    exact isLine_joinLine d hdn hdr _ (hclean r hr)
+  · intro _ l hl
+    cases t with
+    | nil => simp [renderText] at hl
+    | cons r rest =>
+      obtain ⟨g, fs, rfl⟩ := hfirst r (by simp)
+      simp only [renderText, List.map_cons, List.head?_cons, Option.mem_def, Option.some.injEq] at hl
+      subst hl
+      simp only [joinLine, List.map_cons, joinC, String.toList_ofList]
+      intro hb
+      have : ("".toList ++ d :: joinC d (g.toList :: fs.map String.toList)).head? = some d := by simp
+      rw [this] at hb
+      exact hdb (Option.some.inj hb)
+
+/-- **The two export layouts as files**: with either line end and with or without a byte order mark, the
+text layer hands the readers exactly the lines of the rendered export (no field holds a line end). -/
+theorem decode_export (sh : Nat → String) (bom : Bool) (eol : List Char) (heol : eol = ['\n'] ∨ eol = ['\r', '\n']) (d : Char) (a : Acq)
+    (hdn : d ≠ '\n') (hdr : d ≠ '\r') (hdb : d ≠ bomChar)
+    (hcleanR : ∀ r ∈ renderRows sh a, ∀ f ∈ r.dropLast, NoEol f)
+    (hcleanC : ∀ r ∈ renderCols sh a, ∀ f ∈ r.dropLast, NoEol f) :
+    decodeLines (rawText bom eol (renderText d (renderRows sh a))) = renderText d (renderRows sh a) ∧
+    decodeLines (rawText bom eol (renderText d (renderCols sh a))) = renderText d (renderCols sh a) := by
+  constructor
+  · exact decode_table bom eol heol d _ hdn hdr hdb (renderRows_getLast sh a) hcleanR
+      (by intro r hr; simp only [renderRows, List.cons_append, List.head?_cons, Option.mem_def, Option.some.injEq] at hr; exact ⟨_, _, hr.symm⟩)
+  · exact decode_table bom eol heol d _ hdn hdr hdb (renderCols_getLast sh a) hcleanC
+      (by intro r hr; simp only [renderCols, List.cons_append, List.nil_append, List.head?_cons, Option.mem_def, Option.some.injEq] at hr; exact ⟨_, _, hr.symm⟩)
+
 /-! ## non-vacuity: a 2-sample, 2-scan, 2-element acquisition with all five channels -/
 
 section examples
@@ -649,6 +1119,144 @@ example : 0 < exAcq.nscans ∧ 0 < exAcq.elements.length ∧ 0 < exAcq.channels.
 
 /-- `sniff_other`: a text that is no export -/
 example : otherFile [["A", "B\n"], ["MainRuns", "0", "31P", "Counter", "1.0", "\n"]] = true := by decide
+
+
+/-! ### histories -/
+
+theorem asked_cases {ci : Nat} (h : ci < 5) : ci = 0 ∨ ci = 1 ∨ ci = 2 ∨ ci = 3 ∨ ci = 4 := by omega
+
+/-- the example export meets `RowsFileOK` / `ColsFileOK` (delimiter `;`, decimal points): every theorem
+about calls and histories applies to files written from it -/
+example : RowsFileOK exExtV exShow ';' false exAcq :=
+  { nscans := by decide, nelements := by decide, nchannels := by decide,
+    chans := by
+      intro ci hci hask
+      rcases asked_cases hci with rfl | rfl | rfl | rfl | rfl
+      · rcases hask with h | h | h <;> exact absurd h (by decide)
+      · rcases hask with h | h | h <;> exact absurd h (by decide)
+      all_goals exact { nscans := by decide, nelements := by decide, distinct := by decide,
+                        labels := by decide, chanIdx := by decide, chans := by decide, scans := by decide }
+    decDelim := by decide, noComma := fun _ => by decide, free := by decide, delimMain := by decide }
+
+example : ColsFileOK exExtV exShow ';' false exAcq :=
+  { nscans := by decide, nelements := by decide, nchannels := by decide,
+    chans := by
+      intro ci hci hask b
+      rcases asked_cases hci with rfl | rfl | rfl | rfl | rfl
+      · rcases hask with h | h | h <;> exact absurd h (by decide)
+      · rcases hask with h | h | h <;> exact absurd h (by decide)
+      all_goals cases b <;> exact
+        { nsamples := by decide, sampleNames := by decide, nscans := by decide, nelements := by decide, lines := by decide, distinct := by decide,
+          labels := by decide, chanIdx := by decide, chanSelf := by decide, chanMain := by decide, chanEol := by decide,
+          chanScan := by decide, chanLabel := by decide, chanValue := by decide, scans := by decide }
+    sampleMain := by decide, decDelim := by decide, noComma := fun _ => by decide, free := by decide, delimMain := by decide,
+    noTime := fun h => absurd h (by decide) }
+
+/-- an export with decimal commas and without a Time channel (`;`-delimited), for the `dec = true` and the
+no-Time branches of the same theorems -/
+def exAcqC : Acq :=
+  { samples := ["Sample 1", "2"], nscans := 2, elements := ["31P", "63Cu"], channels := ["Analog", "Counter"],
+    value := fun i s e c => String.ofList [dig i, ',', dig s, dig e, dig c] }
+
+theorem asked_cases2 {ci : Nat} (h : ci < 2) : ci = 0 ∨ ci = 1 := by omega
+
+example : RowsFileOK exExtV exShow ';' true exAcqC :=
+  { nscans := by decide, nelements := by decide, nchannels := by decide,
+    chans := by
+      intro ci hci _
+      rcases asked_cases2 hci with rfl | rfl
+      all_goals exact { nscans := by decide, nelements := by decide, distinct := by decide,
+                        labels := by decide, chanIdx := by decide, chans := by decide, scans := by decide }
+    decDelim := fun _ => rfl, noComma := fun h => absurd h (by decide), free := by decide, delimMain := by decide }
+
+example : ColsFileOK exExtV exShow ';' true exAcqC :=
+  { nscans := by decide, nelements := by decide, nchannels := by decide,
+    chans := by
+      intro ci hci _ b
+      rcases asked_cases2 hci with rfl | rfl
+      all_goals cases b <;> exact
+        { nsamples := by decide, sampleNames := by decide, nscans := by decide, nelements := by decide, lines := by decide, distinct := by decide,
+          labels := by decide, chanIdx := by decide, chanSelf := by decide, chanMain := by decide, chanEol := by decide,
+          chanScan := by decide, chanLabel := by decide, chanValue := by decide, scans := by decide }
+    sampleMain := by decide, decDelim := fun _ => rfl, noComma := fun h => absurd h (by decide), free := by decide, delimMain := by decide,
+    noTime := fun _ =>
+      { nsamples := by decide, sampleNames := by decide, chanMain := by decide, chanEol := by decide, chanScan := by decide,
+        chanLabel := by decide, chanChan := by decide, chanValue := by decide } }
+
+example : exAcqC.chanIdx "Time" = none ∧ exAcqC.chanIdx "Counter" = some 1 ∧ exAcq.chanIdx "Time" = some 2 := by decide
+
+/-- a text that is no export -/
+example : ContentOK exExtV exShow (.other ["1.0,2.0,3.0\n", "4.0,5.0,6.0\n"]) := by
+  show otherFile _ = true
+  decide
+
+/-- the layout name a call handed back, if it was a sniff -/
+def Out.fmt? : Out → Option Fmt
+  | .fmt f => some f
+  | _ => none
+
+/-- one path, three files one after the other with the **same** modification time: a rows export, the
+columns export of the same acquisition, a text image; each is sniffed after it was written -/
+def exHistory : List SEvent :=
+  [.write 0 7 (.rows ';' false exAcq), .call 0 .sniff, .write 0 7 (.cols ';' false exAcq), .call 0 .sniff,
+   .write 0 7 (.other ["1.0,2.0,3.0\n", "4.0,5.0,6.0\n"]), .call 0 .sniff, .call 0 .sniff]
+
+/-- the same sniffer with its answers cached per (path, modification time) — the optimisation of seeded
+change C03-c1; every other call is answered as the code does -/
+def runSniffCached (x : Ext V) : List ((Nat × Nat) × Fmt) → FS → List Event → List Out
+  | _, _, [] => []
+  | cache, fs, .write p mt ls :: rest => runSniffCached x cache (fs.write p { mtime := mt, lines := ls }) rest
+  | cache, fs, .call p c :: rest =>
+    match fs p with
+    | none => Out.noFile :: runSniffCached x cache fs rest
+    | some f =>
+      match c with
+      | .sniff =>
+        match cache.lookup (p, f.mtime) with
+        | some r => Out.fmt r :: runSniffCached x cache fs rest
+        | none => Out.fmt (sniffText f.lines) :: runSniffCached x (((p, f.mtime), sniffText f.lines) :: cache) fs rest
+      | c => callText x f.lines c :: runSniffCached x cache fs rest
+
+/-- **Why histories are checked (witness).** On `exHistory` the code as it is names each file correctly
+— as `history_spec` says it must — while the sniffer with a (path, modification time) cache answers
+`rows` for the columns export and for the text image: a mechanism with state between calls breaks the
+conclusion of `history_spec`, which therefore is no consequence of the single-call theorems alone.
+(Evaluated by the kernel on this one history.) -/
+theorem history_cache_witness :
+    (specHistory exExtV (fun _ => none) exHistory).map (fun o => o.bind Out.fmt?)
+      = [some .rows, some .columns, some .unknown, some .unknown] ∧
+    (runHistory exExtV (fun _ => none) (exHistory.map (SEvent.event exShow))).map Out.fmt?
+      = [some .rows, some .columns, some .unknown, some .unknown] ∧
+    (runSniffCached exExtV [] (fun _ => none) (exHistory.map (SEvent.event exShow))).map Out.fmt?
+      = [some .rows, some .rows, some .rows, some .rows] := by
+  decide +kernel
+
+/-- `history_spec_fresh` applies to `exHistory` -/
+example : ∀ p mt c, SEvent.write p mt c ∈ exHistory → c = .rows ';' false exAcq ∨ c = .cols ';' false exAcq ∨
+    c = .other ["1.0,2.0,3.0\n", "4.0,5.0,6.0\n"] := by
+  intro p mt c h
+  simp only [exHistory, List.mem_cons, SEvent.write.injEq, List.mem_nil_iff, or_false, reduceCtorEq, false_or] at h
+  rcases h with ⟨_, _, rfl⟩ | ⟨_, _, rfl⟩ | ⟨_, _, rfl⟩
+  · exact Or.inl rfl
+  · exact Or.inr (Or.inl rfl)
+  · exact Or.inr (Or.inr rfl)
+
+/-- `load_full_false`, `readData_text_rows` … on the example: `;` is no letter of `MainRuns` and occurs in no field -/
+example : ';' ∉ "MainRuns".toList ∧ ',' ∉ "MainRuns".toList := by decide
+example : exAcq.chan 4 = chanOf false ∧ exAcq.chan 3 = chanOf true := by decide
+
+
+/-- `decode_export` on the example: no field of either layout holds a line end; the raw characters of the
+columns file with a byte order mark and `\r\n` line ends, and what the text layer makes of them -/
+example : (∀ r ∈ renderRows exShow exAcq, ∀ f ∈ r.dropLast, '\n' ∉ f.toList ∧ '\r' ∉ f.toList) ∧
+    (∀ r ∈ renderCols exShow exAcq, ∀ f ∈ r.dropLast, '\n' ∉ f.toList ∧ '\r' ∉ f.toList) := by decide
+example : ';' ≠ '\n' ∧ ';' ≠ '\r' ∧ ';' ≠ bomChar := by decide
+example : (rawText true ['\r', '\n'] (renderText ';' (renderCols exShow exAcqC))).take 22 =
+    [bomChar, ';', ';', ';', ';', 'S', 'a', 'm', 'p', 'l', 'e', ' ', '1', ';', '2', ';', '\r', '\n', ';', ';', ';', ';'] := by decide
+example : (decodeLines (rawText true ['\r', '\n'] (renderText ';' (renderCols exShow exAcqC)))).take 3 =
+    [";;;;Sample 1;2;\n", ";;;;<Identifier>;<Identifier>;\n", "MainRuns;0;31P;Analog;0,000;1,000;\n"] := by decide +kernel
+/-- a lone `\r` is a line end too, a second U+FEFF is text -/
+example : decodeLines [bomChar, bomChar, 'a', '\r', 'b', '\r', '\n', '\n', 'c'] = [String.ofList [bomChar, 'a', '\n'], "b\n", "\n", "c"] := by decide
 
 end examples
 
